@@ -120,12 +120,20 @@ func (xmlNode *unmarshaledXML) unserializedChildren(path []string, sn schema.Nod
 			v.Children = append(v.Children, c)
 		case schema.List:
 			// We may validly have multiple list elements with the same
-			// name so no need to check ok.  For each element we create a
-			// List entry in <list>, with a single child for the listEntry.
-			v = &unmarshaledXML{c.XMLName, c.XMLAttr, "", make([]*unmarshaledXML, 0)}
-			fields[name] = v
-			list = append(list, v)
+			// name.  The first one creates the List node in <list>, every
+			// element becomes a listEntry child of that one node (as in the
+			// JSON decoders), so that min/max-elements and unique see all
+			// entries of the list.
+			if !ok {
+				v = &unmarshaledXML{c.XMLName, c.XMLAttr, "", make([]*unmarshaledXML, 0)}
+				fields[name] = v
+				list = append(list, v)
+			}
 			v.Children = append(v.Children, c)
+		case schema.ListEntry:
+			// the entries of one list node: any number, all named after
+			// the list
+			list = append(list, c)
 		case schema.Leaf:
 			if ok {
 				err := mgmterror.NewTooManyElementsError(name)
